@@ -115,9 +115,10 @@ def plan_C08(tier, seed):
 
 
 def plan_C10(tier, seed):
-    return dict(level="exploration", rule=RULE_ARENA + "; C10 oracle: chunk iterators vs ledger order/extent, live blocks contained in exactly one slice; uniform histories: slices tiled exactly by the allocated objects",
-                shards=arena_shards(seed, tier, ["general"], 60, 600, miri_q=0, miri_t=4) + arena_shards(seed, tier, ["uniform"], 120, 1200, workload="uniform", miri_q=1, miri_t=8, asan_t=2),
-                require={"c10.uniform_tilings_checked": 10000, "c10.iter_compared": 200}, assumptions=ASSUME_COMMON)
+    return dict(level="exploration", rule=RULE_ARENA + "; C10 oracle: chunk iterators vs ledger order/extent, live blocks contained in exactly one slice; uniform histories: slices tiled exactly by the allocated objects; boxed slices made from vectors (released with into_raw) located in exactly one chunk slice before and after later allocations",
+                shards=arena_shards(seed, tier, ["general"], 60, 600, miri_q=0, miri_t=4) + arena_shards(seed, tier, ["uniform"], 120, 1200, workload="uniform", miri_q=1, miri_t=8, asan_t=2)
+                + [sh(e, "boxdiff", seed, 730 + i, iters=(300 if tier == "quick" else 5000), ops=60) for i, e in enumerate(("debug", "release"))],
+                require={"c10.uniform_tilings_checked": 10000, "c10.iter_compared": 200, "c10.live_boxed_slices_located": 1000}, assumptions=ASSUME_COMMON)
 
 
 def plan_C09(tier, seed):
